@@ -34,3 +34,8 @@ claim("C13", "exploration", "Hypothesis model/history generation + exhaustive (s
       "is compared with a reference chain (0x11/0x7F, 0x13, 0x12/0x7E, 0x13 in priority order), suppression and session/security state are tracked by a reference state machine. "
       "Exhaustive over sid 0..255 x {empty, every single byte} per swept state and over the 512 switch subsets (thorough); exploration elsewhere.",
       "The reference chain and the request well-formedness rules are my reading of ISO 14229-1; the generated model (server.services) is taken as ground truth for what is offered.")
+claim("C14", "exploration", "Hypothesis request histories against generated virtual-ECU models (direct and through the line server loop), differential against gallia's own client parser and a reference decoder; atheris in the thorough tier",
+      "Random and structured request histories drive RandomUDSServer models directly and through TCPUDSServerTransport.handle_client on in-memory streams; after every step the server "
+      "must not have raised, the connection must be open with one reply line per unsuppressed request, the session must be offered, and helpers.parse_pdu must accept the reply for the "
+      "request both as RawRequest and as typed request. Exploration: models, states and requests are unbounded.",
+      "Default behaviour switches only; in-memory streams stand in for TCP.")
